@@ -1,0 +1,49 @@
+//go:build verif
+
+package termunicode
+
+// Contracts for govc (see /verif/DESIGN.md, C14). Comment-only file.
+// sw_calls(w) counts the strings handed to the sink: the bar primitives write one cell per call.
+
+// A bar of value val against maxVal never exceeds maxLen cells, and draws exactly
+// floor(min(val,maxVal) * maxLen / maxVal) cells (for values whose product does not overflow).
+//@ func barWriteRunes
+//@   requires w != nil && maxLen >= 0
+//@   modifies ghost sw_calls(w)
+//@   ensures [no-scale] maxVal <= 0 ==> sw_calls(w) == old(sw_calls(w))
+//@   ensures [length] maxVal > 0 && 0 <= val && maxLen <= 1000000 && val <= 9000000000000 && maxVal <= 9000000000000 ==>
+//@              sw_calls(w) - old(sw_calls(w)) == fdiv((if val > maxVal then maxVal else val) * maxLen, maxVal)
+//@   ensures [bounded] maxVal > 0 && 0 <= val && maxLen <= 1000000 && val <= 9000000000000 && maxVal <= 9000000000000 ==> sw_calls(w) - old(sw_calls(w)) <= maxLen
+//@   ensures [non-negative] sw_calls(w) >= old(sw_calls(w))
+//@   loop 1 invariant sw_calls(w) >= old(sw_calls(w))
+//@   loop 1 invariant maxVal > 0 && 0 <= param(val) && maxLen <= 1000000 && param(val) <= 9000000000000 && maxVal <= 9000000000000 ==> blocks >= 0 && sw_calls(w) - old(sw_calls(w)) + blocks == fdiv(val * maxLen, maxVal) && val <= maxVal && val == (if param(val) > maxVal then maxVal else param(val))
+
+//@ func BarWrite
+//@   requires w != nil && 0 <= maxLen && maxLen <= 1000000 && 0.0 <= val && val <= 1.0
+//@   modifies ghost sw_calls(w)
+//@   ensures [bounded] sw_calls(w) - old(sw_calls(w)) <= maxLen && sw_calls(w) >= old(sw_calls(w))
+//@   loop 1 invariant 0 <= remainingBlocks && sw_calls(w) >= old(sw_calls(w)) && (sw_calls(w) - old(sw_calls(w))) * 9 + remainingBlocks <= maxLen * 9
+//@   loop 2 invariant sw_calls(w) >= old(sw_calls(w)) && sw_calls(w) - old(sw_calls(w)) + (if blocks > 0 then blocks else 0) <= maxLen
+
+//@ func BarKey
+//@   requires idx >= 0
+//@   pure
+
+// one cell per call
+//@ func HeatWrite
+//@   requires w != nil && 0.0 <= scaled && scaled <= 1.0
+//@   modifies ghost sw_calls(w)
+//@   ensures sw_calls(w) == old(sw_calls(w)) + 1
+//@ func SparkWrite
+//@   requires w != nil && 0.0 <= scaled && scaled <= 1.0
+//@   modifies ghost sw_calls(w)
+//@   ensures sw_calls(w) == old(sw_calls(w)) + 1
+
+//@ func BarWriteStacked
+//@   requires w != nil && maxLen >= 0
+//@   modifies ghost sw_calls(w)
+//@   loop 1 invariant 0 <= i && maxLen >= 0 && w != nil
+//@   loop 2 invariant 0 <= i && maxLen >= 0 && w != nil
+//@ func BarWriteStacked$1
+//@   requires w != nil && *maxLen >= 0 && 0 <= *i && *i < len(*vals)
+//@   modifies ghost sw_calls(w)
